@@ -9,8 +9,11 @@
   members), `hs.size` the aperture size.
 
   Quantification: every configuration (min_size, max_size, min_load, max_load, initial members), every
-  operation list satisfying `wf` (LB.wf): traffic, virtual time (through the EMA inputs), member failures,
-  joins/leaves, slow and failing opens, jitter rounds, every legal random choice.
+  operation list satisfying `wf` (LB.wf): traffic, time (through the EMA inputs: every sequence of wall-clock
+  readings, forwards or backwards, and every decay weight `exp` can return for the resulting time deltas),
+  member failures, joins/leaves, slow and failing opens, jitter rounds, every legal random choice.
+  `wf6` = `wf` and every recorded result of the float arithmetic that is not modelled (`math.exp`, the
+  multiply-add of `Ema.Update`) is one exact arithmetic allows (`recLegal`).
 -/
 import ScalesModel.Proofs.LBSpec
 import ScalesModel.Proofs.ApertureDecision
@@ -96,7 +99,9 @@ theorem C06_adjust_decision_logged (cfg : Cfg) (ops : List Op) (hwf : wf cfg ops
       (tableExpand cfg r = false → tableContract cfg r = true → r.size' + 1 = r.size) ∧
       (tableExpand cfg r = false → tableContract cfg r = false → r.size' = r.size) := by
   obtain ⟨_, h, _⟩ := run_RInv cfg ops _ _ (RInv.init cfg) (wf_proto hwf)
-  exact h.full.log
+  intro r hr
+  obtain ⟨h1, h2, h3, h4, _⟩ := h.full.log r hr
+  exact ⟨h1, h2, h3, h4⟩
 
 /-- **Load-tracking: `_total` is the number of outstanding requests.**  After every operation of every
     run the aperture's `_total` equals the number of dispatches that have not completed (entries of
@@ -107,6 +112,58 @@ theorem C06_total_is_sum (cfg : Cfg) (ops : List Op) :
     (runSt cfg (init cfg) ops).sub.total =
       if cfg.aperture then (((flagsOf (runSt cfg (init cfg) ops).sub.hs).count false : Nat) : Int) else 0 :=
   run_TInv cfg ops _ (TInv.init cfg)
+
+/-- **The clock of the EMA never steps back.**  `MonoClock.Sample()` returns the later of its last value and
+    the wall-clock reading: whatever the wall clock reads — also a reading earlier than every reading before
+    it (NTP step, VM resume) — the sampled time is not earlier than the last sampled time, and it is the
+    reading itself whenever the reading is later. -/
+theorem C06_clock_never_steps_back (last now : Rat) :
+    MonoClock.sample last now = max last now ∧ last ≤ MonoClock.sample last now ∧
+      (last < now → MonoClock.sample last now = now) := by
+  refine ⟨MonoClock.sample_eq_max last now, MonoClock.le_sample last now, fun h => ?_⟩
+  rw [MonoClock.sample_eq_max, max_eq_right (le_of_lt h)]
+
+/-- **Sampled times never decrease, whatever the wall clock does.**  For every sequence of wall-clock
+    readings (no assumption on their order) the times returned by successive `Sample()` calls are sorted,
+    and none is earlier than the clock's starting value. -/
+theorem C06_sampled_times_monotone (last : Rat) (readings : List Rat) :
+    (MonoClock.samples last readings).Pairwise (· ≤ ·) ∧ ∀ t ∈ MonoClock.samples last readings, last ≤ t :=
+  ⟨(MonoClock.samples_sorted readings last).2, (MonoClock.samples_sorted readings last).1⟩
+
+/-- **One `_AdjustAperture` call moves the clock to the later of its value and the reading** (`i.now`, any
+    rational: the wall clock may have stepped back), never backwards — whichever branch (grow, shrink,
+    stay) the call takes. -/
+theorem C06_adjust_clock (cfg : Cfg) (a : AS) (amount : Int) (i : AdjIn) (rest : List AdjIn) (missing : Bool) :
+    (a.adjustWith cfg amount i rest missing).clock = max a.clock i.now ∧
+    a.clock ≤ (a.adjustWith cfg amount i rest missing).clock := by
+  have h : (a.adjustWith cfg amount i rest missing).clock = MonoClock.sample a.clock i.now :=
+    adjustWith_clock cfg a amount i rest missing
+  rw [h]
+  exact ⟨MonoClock.sample_eq_max _ _, MonoClock.le_sample _ _⟩
+
+/-- **Every time delta of every run is legal.**  In every run — every wall-clock reading on the tape
+    arbitrary, in particular earlier than the one before — every `Ema.Update` of every `_AdjustAperture`
+    call of every operation saw a time delta `≥ 0`. -/
+theorem C06_time_delta_nonneg (cfg : Cfg) (ops : List Op) (hwf : wf cfg ops = true) :
+    ∀ q ∈ comp6.modelTrace cfg ops, ∀ r ∈ q.2.adj, 0 ≤ r.dt :=
+  fun q hq r hr => (trace_adjGood cfg ops _ _ (RInv.init cfg) (wf_proto hwf) q hq r hr).2.2.2.2
+
+/-- **Consequently every decay weight lies in [0, 1] and the load is smoothed, not extrapolated.**  If the
+    recorded weights are values `exp(-dt/window)` can take for the time deltas of the run and the recorded
+    results agree with exact arithmetic up to rounding (`wf6`), then in every `_AdjustAperture` call of every
+    operation the decay weight (when one is used: not for the first sample) lies in [0, 1] and the smoothed
+    load the decision is taken on lies between the previous smoothed load and the current number of
+    outstanding requests (`emaBetween`, up to the relative rounding slack 1e-9). -/
+theorem C06_weights_in_unit_interval (cfg : Cfg) (ops : List Op) (hwf : wf6 cfg ops = true) :
+    ∀ q ∈ comp6.modelTrace cfg ops, ∀ r ∈ q.2.adj,
+      (r.prev.isSome = true → 0 ≤ r.w ∧ r.w ≤ 1) ∧ emaBetween r = true :=
+  fun q hq r hr =>
+    recLegal_smooth (C06_time_delta_nonneg cfg ops (wf6_wf hwf) q hq r hr)
+      (trace_legal cfg ops _ (wf6_legal hwf) q hq r hr)
+
+/-- a weight `exp` can return for a time delta `≥ 0` lies in [0, 1] (the only fact about `exp` used) -/
+theorem C06_legal_weight_unit (dt w : Rat) (h : Ema.weightLegal dt w = true) (hdt : 0 ≤ dt) : 0 ≤ w ∧ w ≤ 1 :=
+  Ema.weightLegal_unit h hdt
 
 /-- **EMA.**  With a decay weight in [0,1] each update lies between the previous value and the sample. -/
 theorem C06_ema_between (w prev sample : Rat) (h0 : 0 ≤ w) (h1 : w ≤ 1) :
@@ -158,20 +215,29 @@ theorem C06_min_size_zero_counterexample :
     ∀ k, sizeStep oscCfg0 0 ((sizeStep oscCfg0 0)^[k] (0, 1)) ≠ (sizeStep oscCfg0 0)^[k] (0, 1) :=
   osc0_never_settles
 
-/-- **C06, specification level.**  For every configuration and every operation list satisfying `wf`,
-    the history of the model satisfies the executable specification `specC06` — the predicate the
-    harness evaluates on the implementation's observations (component `aperture`). -/
-theorem C06_model_satisfies_spec (cfg : Cfg) (ops : List Op) (hwf : wf cfg ops = true) :
+/-- **C06, specification level.**  For every configuration and every operation list satisfying `wf6`
+    (the hypothesis predicate of component `aperture`), the history of the model satisfies the executable
+    specification `specC06` — the predicate the harness evaluates on the implementation's observations. -/
+theorem C06_model_satisfies_spec (cfg : Cfg) (ops : List Op) (hwf : comp6.wf cfg ops = true) :
     specC06 cfg (comp6.modelTrace cfg ops) = .ok :=
-  specC06_trace cfg ops _ _ 0 (RInv.init cfg) (TInv.init cfg) (wf_proto hwf)
+  specC06_trace cfg ops _ _ 0 (RInv.init cfg) (TInv.init cfg) (wf_proto (wf6_wf hwf)) (wf6_legal hwf)
 
 /-! non-vacuity: concrete instances of the hypotheses -/
 
-/-- aperture balancer (min_size 1, max_size 3, band [1/2, 2]): gated callbacks, load-driven growth
-    (choice 3) and shrinking, a jitter round (choice 0), a leave (also corpus/C06/lean-witness-aperture.json) -/
-example : wf ⟨true, 1, 3, 1/2, 2, false, [0, 1, 2]⟩
-    [.opn, .join 3 ⟨[], []⟩, .leave 1 ⟨[], []⟩, .loaded [2, 0, 1] ⟨[], []⟩, .chan 0 2, .get ⟨[], [⟨0, 1⟩]⟩,
-     .get ⟨[3], [⟨1, 2⟩]⟩, .put 0 0 ⟨[], [⟨1, 1⟩]⟩, .jitter ⟨[0], []⟩, .leave 2 ⟨[], []⟩] = true := by decide +kernel
+/-- aperture balancer (min_size 1, max_size 3, band [1/2, 2]): gated callbacks; a first sample at wall-clock
+    time 7; the wall clock steps back to 5 (time delta 0, weight 1, the smoothed load stays); at 12 load-driven
+    growth (choice 3); at 60 shrinking; a jitter round (choice 0), a leave
+    (cf. corpus/C06/lean-witness-aperture.json, corpus/C06/clock-steps-back-steady-traffic.json) -/
+example : wf6 ⟨true, 1, 3, 1/2, 2, false, [0, 1, 2]⟩
+    [.opn, .join 3 ⟨[], []⟩, .leave 1 ⟨[], []⟩, .loaded [2, 0, 1] ⟨[], []⟩, .chan 0 2, .get ⟨[], [⟨0, 1, 7⟩]⟩,
+     .get ⟨[], [⟨1, 1, 5⟩]⟩, .get ⟨[3], [⟨1/4, 5/2, 12⟩]⟩, .put 0 0 ⟨[], [⟨1/2, 9/4, 14⟩]⟩,
+     .put 1 0 ⟨[], [⟨0, 1, 60⟩]⟩, .jitter ⟨[0], []⟩, .leave 2 ⟨[], []⟩] = true := by decide +kernel
+
+/-- a weight above 1 for a clock that has not moved (what `exp` returns for a negative time delta) is
+    outside the hypotheses: the model does not produce it -/
+example : wf6 ⟨true, 1, 3, 1/2, 2, false, [0, 1, 2]⟩
+    [.opn, .loaded [2, 0, 1] ⟨[], []⟩, .chan 0 2, .get ⟨[], [⟨0, 1, 7⟩]⟩, .get ⟨[], [⟨3/2, 1/2, 5⟩]⟩] = false := by
+  decide +kernel
 
 /-- the hypotheses of `C06_settles_partial` for the shipped defaults (min_size 1, band [0.5, 2]) -/
 example : (1 : Nat) ≤ (⟨true, 1, 2147483648, 1/2, 2, false, []⟩ : Cfg).minSize ∧
